@@ -460,7 +460,7 @@ def _standard_check(prop_id, tier, seed, spec):
     trusted = list(BASE_TRUST) + list(spec.get("trust", []))
     trusted.append("axioms reported by Print Assumptions under the theorems of Props/%s.v: %s" %
                    (prop_id, ", ".join(cb["axioms"]) if cb["axioms"] else "none (closed under the global context)"))
-    samples = list(stats.get("samples", []))[:6] if stats else []
+    samples = list(stats.get("samples") or [])[:6] if stats else []
     if not samples:
         samples = [{"theorems": cb["theorems"][:5]}]
     ev = {
